@@ -185,12 +185,11 @@ func genNode(t *rapid.T, batch bool, idx string) Node {
 			e := genValExpr(t, n.As)
 			n.Exprs = append(n.Exprs, e)
 			as := fmt.Sprintf("e%s_%d", idx, i)
-			// the last result may take the name of the input field it is computed from (same
-			// type): the new value replaces the field, also in keep() and in a keep list. (Not
-			// for earlier expressions: a later expression that references the field refills the
-			// scope from the point, what then becomes of the earlier result is not documented.)
+			// a result may take the name of the input field it is computed from (same type): the
+			// new value replaces the field - for later expressions of the list ("the results of
+			// expressions are available to later expressions"), in keep() and in a keep list
 			if e.K == "bin" && len(e.A) == 2 && e.A[0].K == "ref" && (e.A[0].N == "i" || e.A[0].N == "f") && strings.Contains("+-*/%", e.N) &&
-				i == k-1 && !shadowed[e.A[0].N] && rapid.IntRange(0, 1).Draw(t, "shadow") == 0 {
+				!shadowed[e.A[0].N] && rapid.IntRange(0, 2).Draw(t, "shadow") == 0 {
 				as = e.A[0].N
 				shadowed[as] = true
 			}
